@@ -603,9 +603,11 @@ pub fn check_main(p: &dyn Prop, tier: Tier) -> i32 {
         let viol = Violation::from_value(&first["violation"]).unwrap();
         let seed = first["seed"].as_u64().unwrap_or(0);
         let case = if first["case"].is_null() { p.case_for_run(first["i"].as_u64().unwrap_or(0), seed, tier) } else { first["case"].clone() };
-        let case = p.refine_case(&case, &viol);
-        let budget = Duration::from_secs(if tier == Tier::Quick { 60 } else { 600 });
         let dangerous = viol.class == "request-hangs" || viol.class == "server-process-died";
+        // the narrowed case is kept only if it still fails the same way
+        let refined = p.refine_case(&case, &viol);
+        let case = if refined == case || dangerous || p.execute(&refined).violation.map_or(false, |v| v.class == viol.class) { refined } else { case };
+        let budget = Duration::from_secs(if tier == Tier::Quick { 60 } else { 600 });
         let (min_case, tries) = if dangerous { (case.clone(), 0) } else { minimise(p, &case, &viol.class, budget) };
         let final_viol = if dangerous { viol.clone() } else { p.execute(&min_case).violation.clone().unwrap_or(viol.clone()) };
         let path = format!("{}/replays/{}-{}.json", verif_root(), p.id(), seed);
